@@ -27,6 +27,7 @@ PROPS = {
     "C07": {
         "level": "exploration",
         "budget": {"quick": 40, "thorough": 600},
+        "miri": {"procs": 12, "count": 6},
         "min_evaluations": 5000,
         "min_counters": {"values_checked": 3000, "casts_accepted": 100, "casts_rejected": 1000, "cast_executions": 50},
         "rule": ("Systematic types (every constructor over every leaf type; array sizes 0..17,31,32,33,64,255,256,1000; list "
@@ -55,6 +56,7 @@ PROPS = {
     "C13": {
         "level": "exploration",
         "budget": {"quick": 60, "thorough": 600},
+        "asan": {"budget": 60},
         "min_evaluations": 2000,
         "min_counters": {"documented_call_ok": 460, "wrong_call_rejected": 500, "model_agreements": 3000, "jets_with_model": 250},
         "rule": ("Every jet of Elements::ALL (471) from the documented signature table jets_golden.tsv (cross-checked "
@@ -71,6 +73,7 @@ PROPS = {
     "C15": {
         "level": "exploration",
         "budget": {"quick": 30, "thorough": 300},
+        "miri": {"procs": 12, "count": 6},
         "min_evaluations": 20000,
         "min_counters": {"maps": 1000, "byte_arrays": 1000, "duplicate_module_rejected": 500, "duplicate_json_rejected": 500},
         "rule": ("Random types to depth 3 and targeted byte-array shapes ([u8; 0..64], nested, inside tuples / options / "
